@@ -5,15 +5,6 @@ Import ListNotations.
 Open Scope N_scope.
 Ltac Zify.zify_post_hook ::= Z.to_euclidean_division_equations.
 
-(* the fragment covered by the proved theorem (the compiler / VM / Sem models cover all of Core-0) *)
-Fixpoint frag (e : expr) : bool :=
-  match e with
-  | ENull | EBool _ | EInt _ | EId _ => true
-  | ENested a | ENeg a | ENot a | EAssign _ a | EOpAssign _ _ a => frag a
-  | EArith _ a b | ECmp _ a b | ELogic _ a b => frag a && frag b
-  | _ => false
-  end.
-
 Definition shape (st : cst) (r : rr) (out : cout) (st' : cst) (e : expr) : Prop :=
   match r with
   | RNone => out = out_none /\ tcount st' = tcount st
